@@ -323,7 +323,7 @@ func init() {
 
 	Registry["C11"] = func(t Tier) *Check {
 		chk := &Check{ID: "C11",
-			Rule:   "histories = all histories up to depth 3 (quick) / 4 (thorough) over moves, uninitialised adds (nil callbacks), copies, batch moves, Reset and Shrink on pointer-bearing (pointer, slice, string, map), zero-size and large components at capacity 1, and over batches of 1/64/65/70 rows (both table-reset strategies) followed by removal/reset and uninitialised re-creation. Per history: (a) every component added without a value reads as zero and all values equal the model; (b) in a binary built with the gc overlay (a hook at the entry of every function of table.go, column.go, util.go) the history is re-executed once per GC point inside its last operation (at most 14 points per operation: the first 10 and last 4; thorough: also every pair of up to 40 points for histories up to depth 2 and of 10 points at depth 3) with two forced collections at that point, under GODEBUG=clobberfree=1: all pointees must still hold the model's values; (c) weak pointers to every pointee: after one forced collection data referenced only by removed components must be gone and data of live components must not; states = histories, non-trivial = GC points exercised",
+			Rule:   "histories = all histories up to depth 3 (quick) / 4 (thorough) over moves, uninitialised adds (nil callbacks), copies, batch moves, Reset and Shrink on pointer-bearing (pointer, slice, string, map), zero-size and large components at capacity 1, and over batches of 1/64/65/70 rows (both table-reset strategies) followed by removal/reset and uninitialised re-creation. Per history: (a) every component added without a value reads as zero and all values equal the model; (b) in a binary built with the gc overlay (a hook at the entry of every function of table.go, column.go, util.go) the history is re-executed once per GC point inside its last operation (at most 14 points per operation: the first 10 and last 4; thorough: also every pair of up to 40 points for histories up to depth 2 and of 10 points at depth 3) with two forced collections at that point, under GODEBUG=clobberfree=1: all pointees must still hold the model's values; (c) weak pointers to every pointee: after one forced collection data referenced only by removed components must be gone and data of live components must not; (d) memory sweep: relation components with 1..100 payload bytes as the largest component of their archetype - rows vacated by swap-remove, batch reset and target death read as zero when re-used without a value; a pointer-bearing type registered right after a registration that was rejected on a locked world keeps its data across archetype moves and collections; states = histories, non-trivial = GC points exercised",
 			Assume: []string{"a missing write barrier is only observable while the collector marks concurrently with the copy; a forced collection at a hook point is not concurrent, so that part of the quantifier ('GC running concurrently at any point') is covered at the granularity of the inserted GC points only"},
 		}
 		chk.Special = func(tier Tier, rep *engine.Report) error {
@@ -369,6 +369,19 @@ func init() {
 				points += r.Points
 				for _, v := range r.Violations {
 					rep.Found = append(rep.Found, engine.Found{Scenario: "C11-memory", V: v, OpKind: v.OpKind})
+				}
+			}
+			// payload-carrying relation components of every size class; type flags after a rejected registration
+			// (own process, clobberfree: a corrupted heap kills it, which is reported as a crash finding)
+			if mr, err := RunSubPrebuilt("C11mem", "verif_gc"); err != nil {
+				return err
+			} else {
+				rep.Histories += int64(mr.Cases)
+				rep.States += int64(mr.Cases)
+				rep.Transitions += int64(mr.Steps)
+				rep.PerConfig = append(rep.PerConfig, fmt.Sprintf("C11 memory sweep: cases=%d checked steps=%d", mr.Cases, mr.Steps))
+				for _, v := range mr.Violations {
+					rep.Found = append(rep.Found, engine.Found{Scenario: "C11-memory-sweep", V: v, OpKind: "memory-sweep"})
 				}
 			}
 			rep.NonTrivial += int64(points)
